@@ -374,7 +374,7 @@ func (a *AliveDialerSet) NotifyLatencyChange(dialer *Dialer, alive bool) {
 			a.log.WithFields(logrus.Fields{
 				"group":	a.dialerGroupName,
 				"network":	a.CheckTyp.String(),
-				"dialer":	a.minLatency.dialer.property.Name,
+				"dialer":	dialer.property.Name,
 			}).Infof("Group selects dialer")
 		}
 	}
